@@ -1,14 +1,16 @@
 #!/bin/bash
-# tools/commit.sh "message": regenerate manifest, validate, commit everything except evidence of unclaimed properties
+# tools/commit.sh "message": regenerate manifest + FINDINGS.md, validate, commit everything except evidence of unclaimed properties
 cd /verif
 python3 tools/gen_manifest.py >/dev/null || exit 1
+python3 tools/gen_findings_md.py >/dev/null
 python3-vt tools/validate.py || exit 1
 git add -A
-for f in evidence/*.json; do
-  id=$(basename $f .json)
-  if ! grep -q "\"property_id\": \"$id\"" MANIFEST.json || ! python3 -c "
-import json,sys
-m=json.load(open('MANIFEST.json'))
-sys.exit(0 if any(c['property_id']=='$id' for c in m['checks']) else 1)"; then git reset -q -- $f; fi
-done
+unclaimed=$(python3 - <<'PY'
+import json,glob,os
+m=json.load(open('/verif/MANIFEST.json'))
+claimed={c['property_id'] for c in m['checks']}
+print(" ".join(f for f in glob.glob('evidence/*.json') if os.path.basename(f)[:-5] not in claimed))
+PY
+)
+[ -n "$unclaimed" ] && git reset -q -- $unclaimed
 git commit -qm "$1" && git log --oneline | head -1
